@@ -340,9 +340,25 @@ func faultTable() map[string]faultFn {
 		},
 		"similar-paths": func(t *ftree) *injected {
 			a := &model.RDir{Kind: "GET", Keyword: "GET", Params: []string{"/fsim/{one}"}, HasPath: true, Children: []*model.RDir{{Kind: "HTTP-response-code", Keyword: "200", Params: []string{"any"}}}}
+			switch t.r.Intn(4) {
+			case 0: // the first path belongs to a JSON-RPC resource
+				a = &model.RDir{Kind: "URL", Keyword: "URL", Params: []string{"/fsim/{one}"}, Children: []*model.RDir{
+					{Kind: "Protocol", Keyword: "Protocol", Params: []string{"json-rpc-2.0"}},
+					{Kind: "Method", Keyword: "Method", Params: []string{"ping"}}}}
+			case 1: // an URL group
+				a = &model.RDir{Kind: "URL", Keyword: "URL", Params: []string{"/fsim/{one}"}, Children: []*model.RDir{
+					{Kind: "DELETE", Keyword: "DELETE", Children: []*model.RDir{{Kind: "HTTP-response-code", Keyword: "204", Params: []string{"empty"}}}}}}
+			case 2: // a deeper path with the parameter in the middle
+				a = &model.RDir{Kind: "GET", Keyword: "GET", Params: []string{"/fsim/{one}/deep/er"}, HasPath: true, Children: []*model.RDir{{Kind: "HTTP-response-code", Keyword: "200", Params: []string{"any"}}}}
+			}
 			b := &model.RDir{Kind: "GET", Keyword: "GET", Params: []string{"/fsim/{two}/x"}, HasPath: true, Children: []*model.RDir{{Kind: "HTTP-response-code", Keyword: "200", Params: []string{"any"}}}}
-			if t.r.Intn(2) == 0 {
+			switch t.r.Intn(3) {
+			case 0:
 				b = &model.RDir{Kind: "URL", Keyword: "URL", Params: []string{"/fsim/{two}"}, Children: []*model.RDir{{Kind: "POST", Keyword: "POST", Children: []*model.RDir{{Kind: "HTTP-response-code", Keyword: "200", Params: []string{"any"}}}}}}
+			case 1:
+				b = &model.RDir{Kind: "URL", Keyword: "URL", Params: []string{"/fsim/{two}"}, Children: []*model.RDir{
+					{Kind: "Protocol", Keyword: "Protocol", Params: []string{"json-rpc-2.0"}},
+					{Kind: "Method", Keyword: "Method", Params: []string{"pong"}}}}
 			}
 			at := 1 + t.r.Intn(len(t.roots))
 			out := append([]*model.RDir(nil), t.roots[:at]...)
